@@ -109,6 +109,37 @@ func capLimited(v ssa.Value) bool {
 	return ok1 && ok2 && kh.Int64() == km.Int64()
 }
 
+// emptyPrefix: x[:0:0] (shares no element with x).
+func emptyPrefix(v ssa.Value) bool {
+	s, ok := v.(*ssa.Slice)
+	if !ok || s.High == nil {
+		return false
+	}
+	k, isK := s.High.(*ssa.Const)
+	return isK && k.Int64() == 0
+}
+
+// appendsSomething: the variadic part of an append call is a literal list of at least one element.
+func appendsSomething(c *ssa.CallCommon) bool {
+	if len(c.Args) < 2 {
+		return false
+	}
+	sl, ok := c.Args[1].(*ssa.Slice)
+	if !ok {
+		return false
+	}
+	a, ok := sl.X.(*ssa.Alloc)
+	if !ok {
+		return false
+	}
+	if pt, isP := a.Type().Underlying().(*types.Pointer); isP {
+		if arr, isA := pt.Elem().Underlying().(*types.Array); isA {
+			return arr.Len() >= 1
+		}
+	}
+	return false
+}
+
 // ComputeEffects computes summaries for all repo functions to a fixpoint.
 func ComputeEffects(p *Prog) *EffectsInfo {
 	ei := &EffectsInfo{P: p, Of: map[*ssa.Function]*Effects{}}
@@ -213,7 +244,16 @@ func (ei *EffectsInfo) analyse(f *ssa.Function) bool {
 			case "append":
 				s := c.Args[0]
 				as := get(s)
-				if capLimited(s) || as.Params()|as&(LocUnknown|LocGlobal) == 0 {
+				if capLimited(s) {
+					// append must reallocate as soon as it appends anything: nothing shared is written. The result is
+					// fresh unless nothing is appended - then it IS its first argument (x[:n:n]) and shares x's array,
+					// so it is fresh only for an empty prefix (x[:0:0]) or a provably non-empty appended part
+					if emptyPrefix(s) || appendsSomething(c) {
+						return LocFresh
+					}
+					return as | LocFresh
+				}
+				if as.Params()|as&(LocUnknown|LocGlobal) == 0 {
 					return LocFresh
 				}
 				write(ins, as, "append into a slice that may have spare capacity in "+as.Describe(f)+" (writes the shared backing array beyond len)")
